@@ -28,7 +28,8 @@ fn main() {
     std::panic::set_hook(Box::new(|_| {}));
     unsafe { native::INPUTS = inputs; }
     native::set_tracking(true);
-    let r = std::panic::catch_unwind(f);
+    // run on a thread of its own, so that thread-local destructors run (and are tracked) when it exits
+    let r = std::thread::Builder::new().stack_size(64 << 20).spawn(move || f()).unwrap().join();
     native::set_tracking(false);
     if r.is_err() {
         println!("NATIVE uncaught-panic");
